@@ -23,6 +23,7 @@ type lcParams struct {
 	lifeCrashes bool // crashes inside Initialized/Started
 	mw          bool
 	children    bool
+	stopCrash   bool // receivers may panic while handling Stopped
 }
 
 type lcClientOp struct {
@@ -49,6 +50,7 @@ func genLifecycle(rc *core.RunCtx, env *Env, p lcParams) *lcScenario {
 			InboxSize: []int{1024, 1, 2, 4}[g.IntN(4)], PanicInit: map[int]bool{}, PanicStarted: map[int]bool{}, PanicStopped: map[int]bool{}}
 		if p.mw {
 			sp.NMiddleware = g.Range(1, 3)
+			sp.MWSplit = g.Range(0, sp.NMiddleware-1)
 		} else if g.Bool(0.2) {
 			sp.NMiddleware = g.Range(1, 2)
 		}
@@ -96,6 +98,15 @@ func genLifecycle(rc *core.RunCtx, env *Env, p lcParams) *lcScenario {
 			}
 		}
 	}
+	if p.stopCrash {
+		for _, sp := range sc.specs {
+			for inc := 0; inc < 3; inc++ {
+				if g.Bool(0.4) {
+					sp.PanicStopped[inc] = true
+				}
+			}
+		}
+	}
 	nclients := 1 + g.Pick(3, 4, 2)
 	maxOps := 8
 	if rc.Tier == "thorough" {
@@ -130,6 +141,14 @@ func genLifecycle(rc *core.RunCtx, env *Env, p lcParams) *lcScenario {
 					}
 				} else if g.Bool(0.08) {
 					m.Op = cReport
+				} else if (p.focus == "C01" || p.focus == "C03") && len(sc.specs) > 1 && g.Bool(0.3) {
+					// the target relays a fresh message to another actor (Context.Send)
+					other := sc.specs[g.IntN(len(sc.specs))]
+					if other.FullID() != tgt {
+						m.Op = cSend
+						m.Name = other.FullID()
+						m.Sub = env.NewMsg("relay", 0)
+					}
 				}
 				ops = append(ops, lcClientOp{kind: 0, target: tgt, msg: m, sender: senderPool[g.IntN(len(senderPool))]})
 			case 1:
@@ -277,6 +296,26 @@ func runLifecycle(p lcParams) func(rc *core.RunCtx) {
 			}
 		}
 		simrt.WaitQuiet(time.Hour)
+		if p.stopCrash {
+			// only containment is asserted here: the process survives (PostRun),
+			// callers return, and a bystander actor still works
+			by := &Spec{Kind: "act", ID: "bystander", MaxRestarts: 1, InboxSize: 4, PanicInit: map[int]bool{}, PanicStarted: map[int]bool{}, PanicStopped: map[int]bool{}}
+			env.Spawn(by)
+			bm := env.NewMsg("probe", 99)
+			env.Send("probe", by.FullID(), bm, nil)
+			simrt.WaitQuiet(time.Hour)
+			ok := false
+			for _, d := range env.userDeliveries(by.FullID()) {
+				if d.Msg == bm {
+					ok = true
+				}
+			}
+			if !ok {
+				rc.Violate("bystander-not-served-after-stopped-crash", "after receivers panicked while handling Stopped, a freshly spawned actor no longer receives messages")
+			}
+			rc.Nontrivial = simrt.FaultCount("actor-crash-in-Stopped") > 0
+			return
+		}
 		lcOracles(rc, env, sc, mon, p, probes)
 	}
 }
@@ -770,10 +809,22 @@ func init() {
 		Run: runLifecycle(lcParams{focus: "C04", stops: true, crashes: true, lifeCrashes: true, children: true}),
 		Doc: base + "crashes at Initialized/Started/user messages, stop/poison callers; oracle: per-incarnation trace matches Initialized (Started user*)? Stopped?, Stopped exactly once iff ended and last, no zombie incarnation, accepted messages delivered after Started, Spawn returns after Started",
 		Faults: []string{"actor-crash-in-Initialized", "actor-crash-in-Started", "actor-crash-in-Receive", "concurrent stop/poison"}})
+	core.Register(&core.Profile{Property: "C04", Name: "lifecycle-budget", Weight: 2, Cfg: cfgEngine,
+		Run: runLifecycle(lcParams{focus: "C04", stops: true, crashes: true, lifeCrashes: true, children: true, exceed: true}),
+		Doc: base + "as 'lifecycle', with one actor driven beyond its restart budget (the incarnation that ends by exhausting the budget must also get exactly one final Stopped)",
+		Faults: []string{"actor-crash-in-Initialized", "actor-crash-in-Started", "actor-crash-in-Receive", "restart-budget-exceeded", "concurrent stop/poison"}})
 	core.Register(&core.Profile{Property: "C05", Name: "restart", Weight: 4, Cfg: cfgEngine,
 		Run: runLifecycle(lcParams{focus: "C05", crashes: true, lifeCrashes: true}),
 		Doc: base + "crashes within the restart budget at every batch position (batch knob) and in Initialized/Started, senders continuing during the restart delay; oracle: no un-recovered panic, Stopped to the failed incarnation, one ActorRestartedEvent per crash with Restarts=1..n, fresh Initialized+Started, every accepted message delivered exactly once in per-sender order, queued-before-crash ahead of sent-after-crash, crashing message not redelivered",
 		Faults: []string{"actor-crash-in-Initialized", "actor-crash-in-Started", "actor-crash-in-Receive"}})
+	core.Register(&core.Profile{Property: "C05", Name: "restart-with-poison", Weight: 2, Cfg: cfgEngine,
+		Run: runLifecycle(lcParams{focus: "C05", crashes: true, lifeCrashes: true, stops: true}),
+		Doc: base + "as 'restart', with Stop/Poison callers: crashes while the batch behind a poison pill is drained, pills in the restart buffer; oracle (the parts that hold whether or not the actor is being stopped): no un-recovered panic, no message delivered twice, the crashing message never redelivered, Stopped to every failed incarnation",
+		Faults: []string{"actor-crash-in-Initialized", "actor-crash-in-Started", "actor-crash-in-Receive", "concurrent stop/poison"}})
+	core.Register(&core.Profile{Property: "C05", Name: "crash-in-Stopped", Weight: 1, Cfg: cfgEngine,
+		Run: runLifecycle(lcParams{focus: "C05", crashes: true, stops: true, stopCrash: true}),
+		Doc: base + "receivers that panic while handling Stopped (after a crash, on stop, on poison); oracle: containment only - no un-recovered panic, every caller returns, a bystander actor is still served",
+		Faults: []string{"actor-crash-in-Stopped", "actor-crash-in-Receive", "concurrent stop/poison"}})
 	core.Register(&core.Profile{Property: "C06", Name: "budget", Weight: 4, Cfg: cfgEngine,
 		Run: runLifecycle(lcParams{focus: "C06", crashes: true, lifeCrashes: true, exceed: true, children: true}),
 		Doc: base + "one actor driven beyond MaxRestarts (first batch / replay of the restart buffer / Started); oracle: restarts == budget, exactly one ActorMaxRestartsExceededEvent, unregistered, children stopped and unregistered, later sends dead-letter, no delivery after Stopped, process alive",
